@@ -436,6 +436,9 @@ func c03Check(l *explore.Local, e *cpuEnv, c c03Case) *explore.Fail {
 // value: any write to DIV (FF04) clears it. So also writes that store the value already there (RES on a clear
 // bit, SET on a set bit, LD (HL),A with equal contents) must show in their documented cycle.
 type c03Div struct {
+	// Effect (C01's use of this probe): judge only THAT the write reaches the addressed location (DIV is cleared
+	// by the end of the instruction), not in which cycle
+	Effect  bool   `json:"effect,omitempty"`
 	Op      int    `json:"op"`
 	Ptr     uint16 `json:"ptr"`
 	Flags   uint8  `json:"flags"`
@@ -486,6 +489,16 @@ func c03DivCheck(l *explore.Local, e *cpuEnv, c c03Div) *explore.Fail {
 		if plainAddr(w.Addr) {
 			e.shadow[fold(w.Addr)] = e.m.Map.Read(w.Addr)
 		}
+	}
+	if c.Effect {
+		if seen == 0 {
+			return explore.Failf(fmt.Sprintf("op %s: addressed memory wrong after the instruction", opName(info)),
+				"pointer aimed at DIV (FF04, reads %02x before): the instruction must write there (any write clears DIV) but DIV still reads %02x", uint8(c.Counter>>8), e.m.Map.Read(0xff04))
+		}
+		l.Eval(1)
+		l.Trans(n)
+		l.Outcome(uint64(c.Op)<<8 | 0xd1)
+		return nil
 	}
 	if seen != want {
 		what := fmt.Sprintf("observed after cycle %d", seen)
